@@ -238,7 +238,8 @@ def check_target_table(ctx: Ctx, cname: str) -> None:
         if not verdicts:
             ctx.violated(f, f.node, f"{cname}: every configured target market is entered in the target table", "for name in settings['targetMarkets']: self.target_markets[name] = simulator.name2market[name]", "the table is never filled on " + p.describe()[:100])
         for ok, found, node in verdicts:
-            ctx.check(ok, f, node, f"{cname}: every configured target market is entered in the target table under its own name", "for name in settings['targetMarkets']: self.target_markets[name] = simulator.name2market[name]", found)
+            ctx.check(ok, f, node, f"{cname}: every configured target market is entered in the target table under its own name", "for name in settings['targetMarkets']: self.target_markets[name] = simulator.name2market[name]", found, guard="text",
+                      guard_text=" ".join((n_.func.attr if isinstance(n_.func, __import__("ast").Attribute) else getattr(n_.func, "id", "")) for n_ in __import__("ast").walk(f.node) if isinstance(n_, __import__("ast").Call)))  # the table is filled through a routine that is new in this tree
     ctx.require(seen >= 1, f"{cname}.setup: no normal path")
 
 
